@@ -4,6 +4,7 @@ import (
 	"encoding/json"
 	"fmt"
 	"github.com/jhalter/mobius/internal/mobius"
+	"github.com/jhalter/mobius/verifh/vrt"
 	"os"
 	"path/filepath"
 	"sort"
@@ -996,13 +997,84 @@ func runC05(w *explore.Worker) {
 			w.Sample(map[string]interface{}{"kind": c.Kind, "requester_bits": bitList(c.Bits)})
 		}
 	}
+	bound := 1
+	if w.Thorough {
+		bound = 2
+	}
+	for _, g := range []string{"revoke", "grant"} {
+		explore.ExploreSchedules(w, explore.SchedConfig{Harness: "C05loginrace", Params: g, Bound: bound, FreeCost: 1, MaxSteps: 20000, Suspend: true}, c05LoginRace(g == "grant"))
+	}
 	if w.Index == 0 {
 		w.Count("request_kinds", len(c05Kinds)+len(c05Special))
 		w.Count("cases", len(cases))
 	}
 }
 
+// c05LoginRace (E-SCHED): an account is edited by an administrator while a client is logging in to it.  Whatever
+// the schedule, once things have settled the session acts with the privileges the account holds: a privilege the
+// edit revoked is gone (grant=false), one it granted is there (grant=true).
+func c05LoginRace(grant bool) func() explore.SchedOutcome {
+	return func() (out explore.SchedOutcome) {
+		vrt.BeginSetup()
+		accBefore, accAfter := world.Bits(ref.PReadChat, ref.PSendChat), world.Bits(ref.PReadChat)
+		if grant {
+			accBefore, accAfter = accAfter, accBefore
+		}
+		wd := world.New(world.Cfg{Accounts: []world.Acct{{Login: "guest", Name: "Guest"}, {Login: "admin", Name: "Admin", Password: "secret", Access: world.AllAccess},
+			{Login: "vic", Name: "Victim", Password: "vp", Access: accBefore}}})
+		defer wd.Close()
+		// vic's connection is opened first: the default schedule completes the login before the edit
+		v := wd.Dial("10.0.0.5:1005")
+		v.Handshake()
+		world.Quiet()
+		adm, r := wd.Connect("10.0.0.1:1001", "admin", "secret", "adm")
+		if r == nil || r.Err != 0 {
+			out.Violations = append(out.Violations, explore.SchedV{Signature: "C05/login-race/setup", Detail: "admin login failed"})
+			return out
+		}
+		v.Send(world.LoginTx("vic", "vp", ref.FS(ref.FUserName, "vic"), ref.F16(ref.FUserIconID, 1)))
+		adm.Send(ref.Tx{Type: ref.TSetUser, Fields: []ref.Fld{ref.F(ref.FUserLogin, obf("vic")), ref.FS(ref.FUserName, "Victim"), ref.F(ref.FUserPassword, []byte{0}), ref.F(ref.FUserAccess, accAfter[:])}})
+		vrt.EndSetup()
+		vrt.Settle(10 * time.Second)
+		adm.New()
+		id := v.Req(ref.TChatSend, ref.FS(ref.FData, "hello"))
+		vrt.Settle(10 * time.Second)
+		rep := v.Reply(id)
+		refused := rep != nil && rep.Err != 0
+		got := false
+		for _, t := range adm.New() {
+			if t.Type == ref.TChatMsg {
+				got = true
+			}
+		}
+		if !v.Conn.Closed {
+			if !grant && (got || !refused) {
+				out.Violations = append(out.Violations, explore.SchedV{Signature: "C05/login-race/effect-without-privilege", Detail: fmt.Sprintf("the account lost send-chat while its client was logging in; afterwards the session's chat line was delivered=%v refused=%v", got, refused)})
+			}
+			if grant && (refused || !got) {
+				out.Violations = append(out.Violations, explore.SchedV{Signature: "C05/login-race/refused-although-privileged", Detail: fmt.Sprintf("the account gained send-chat while its client was logging in; afterwards the session's chat line was delivered=%v refused=%v", got, refused)})
+			}
+		}
+		for _, pn := range vrt.S.Panics() {
+			out.Violations = append(out.Violations, explore.SchedV{Signature: "C05/login-race/panic/" + vrt.PanicSite(pn), Detail: pn})
+		}
+		out.Canon = fmt.Sprintf("delivered=%v refused=%v closed=%v", got, refused, v.Conn.Closed)
+		return out
+	}
+}
+
 func replayC05(w *explore.Worker, raw json.RawMessage) {
+	var sr explore.SchedReplay
+	if json.Unmarshal(raw, &sr) == nil && sr.Kind == "schedule" {
+		_, out, err := explore.RunSchedule(sr.Choices, 20000, c05LoginRace(sr.Params == "grant"))
+		if err != nil {
+			w.Broken("replay: %v", err)
+		}
+		for _, v := range out.Violations {
+			w.Violation(v.Signature, v.Detail, 0, sr)
+		}
+		return
+	}
 	var c c05Case
 	if err := json.Unmarshal(raw, &c); err != nil {
 		w.Broken("bad replay: %v", err)
